@@ -300,6 +300,10 @@ func copyFile(base Fs, layer Fs, name string, bfh File) error {
 	// Create the file on the overlay
 	lfh, err := layer.Create(name)
 	if err != nil {
+		// a Create that failed half-way inside a layer made of several filesystems (a
+		// CacheOnReadFs creates the file in its base, then in its layer) may have left an
+		// empty or truncated file: clean up as for every later failure
+		layer.Remove(name)
 		return err
 	}
 	n, err := io.Copy(lfh, bfh)
